@@ -17,6 +17,8 @@ REQUIRED_THEOREMS = [
     'OpusProps.C01.nativeRet_depends_on_parse', 'OpusProps.C01.decodeNative_depends_on_parse',
     'OpusProps.C01.celt_state_layout', 'OpusProps.C01.celt_postfilter_indices_in_bounds',
     'OpusProps.C01.celt_decode_mem_shift_in_bounds', 'OpusProps.C01.celt_postfilter_period_invariant',
+    'OpusProps.C01.celt_synthesis_indices_in_bounds', 'OpusProps.C01.celt_deemphasis_indices_in_bounds',
+    'OpusProps.C01.celt_prefilter_fold_indices_in_bounds', 'OpusProps.C01.celt_plc_indices_in_bounds',
 ]
 RULE = ('random call histories on one decoder state (decode of real-encoder packets of all modes/bandwidths/durations, '
         'bit-flipped / truncated / extended / random packets, synthetic framing of every code incl. self-delimited, NULL and '
@@ -30,9 +32,10 @@ RULE = ('random call histories on one decoder state (decode of real-encoder pack
         '2-byte packet, structured 3/4-byte packets and generated / corrupted packets (opus_packet_has_lbrr also against the model); '
         'a case is distinct by (operation, outcome class)')
 NOT_COVERED = [
-    'index arithmetic INSIDE silk_Decode / resamplers and, of celt_decode_with_ec_dred, everything except the decoder-state '
-    'layout, the decode_mem shift and the post-filter (celt_synthesis / MDCT extents, deemphasis, celt_decode_lost, '
-    'prefilter_and_fold: oracles with monitored contracts, reached only by sanitizer-instrumented exploration)',
+    'index arithmetic INSIDE silk_Decode / resamplers, and of the CELT decoder everything below celt_decoder.c: the entropy / '
+    'band decoding (unquant_*, quant_all_bands, anti_collapse: C03 / C17), the interior of the routines celt_decoder.c calls '
+    '(their extent contracts are transcribed and checked under the sanitizer, not proved) and the deep-PLC / DRED paths '
+    '(not compiled in the baseline build)',
     'finiteness of produced samples (float DSP): searched on the implementation only',
     'range decoder reads (C08) and the symbol layers (C03)',
     'projection decoder matrix multiply VALUES (C10); its index ranges are covered by msDecode_writes',
@@ -48,10 +51,16 @@ ASSUMPTIONS = [
 TRUSTED = ['oracle contracts for silk_Decode / celt_decode_with_ec_dred / ec_dec_bit_logp / ec_dec_uint listed under assumptions',
            'OpusModel/CeltIdx.lean is a hand transcription of index expressions (celt/celt_decoder.c:1024-1028, :1064-1067, '
            ':1258-1260, :1295-1319, celt/celt.c:163-258); supported by the celtidx tie: call arguments recorded inside the real '
-           'decoder, comb_filter extents measured on the compiled function by NaN propagation (dead loads are not measurable)']
-UNPROVED = ['CELT interior index bridge, first milestone only: state layout, decode_mem shift and post-filter are proved; '
-            'celt_synthesis / clt_mdct_backward extents, deemphasis with downsampling, celt_decode_lost (pitch search, exc / LPC '
-            'buffers, extrapolation, TDAC), noise PLC and prefilter_and_fold are not yet modelled',
+           'decoder, comb_filter extents measured on the compiled function by NaN propagation (dead loads are not measurable)',
+           'OpusModel/CeltIdxCalls.lean likewise (celt_decoder.c:277-369, :371-460, :491-541, :596-962; callee contracts from celt/mdct.c, '
+           'celt/celt_lpc.c, celt/pitch.c, celt/bands.c): every call on an audio buffer is recorded inside the real decoder with pointers '
+           'resolved to array+offset (ALLOC is recorded too) and compared; the inline loops of celt_decode_lost / deemphasis are a reading '
+           'only (deemphasis: the number of pcm samples written and the scratch size are observed)']
+UNPROVED = ['CELT interior index bridge: the call lists and inline-loop extents of celt_decoder.c are proved in bounds under the '
+            'callee contracts (Call.accs) of clt_mdct_backward, denormalise_bands, comb_filter, celt_fir, celt_iir, _celt_autocorr, '
+            '_celt_lpc, pitch_downsample, pitch_search; those contracts are transcribed and validated by sanitizer probes on exact-size '
+            'blocks, not proved from the callee code; isTransient / LM / channel parameters are covered for all legal values, the oldBandE '
+            '/ oldLogE band-energy arrays only by the state layout theorem',
             'projection matrix multiply values (C10 proves matrix_short_saturates; here only its index ranges: msDecode_writes)',
             'int_ranges is a list of range lemmas for the expressions the C code forms, stated over the guaranteed operand ranges; '
             'the model itself computes with unbounded Int (no wrap32 instrumentation), and ec_tell < 2^30 is a hypothesis',
@@ -71,7 +80,10 @@ LEVEL_TEXT = ('proof of the control skeleton, partial for the property: for ever
               'states keep the invariant, every per-stream access inside buf / its scratch buffer, every copy-out index inside '
               'the caller buffer; 32-bit range lemmas for the skeleton arithmetic; CELT interior (index bridge, first part): the arrays behind '
               'the decoder struct tile opus_custom_decoder_get_size, and for every legal frame size, post-filter period in {0} u [15,1024) '
-              'and gain every index the post-filter comb_filter calls and the decode_mem shift touch lies inside its channel buffer. The SILK/CELT synthesis interior and sample '
+              'and gain every index the post-filter comb_filter calls and the decode_mem shift touch lies inside its channel buffer; likewise '
+              'every access of celt_synthesis, deemphasis (all down-sampling factors), prefilter_and_fold and celt_decode_lost (pitch search, '
+              'pitch-based concealment for every lag 100..720, noise-based concealment) lies inside its array, under the extent contracts of '
+              'the routines they call. The SILK/CELT synthesis interior and sample '
               'finiteness are not modelled (sanitizer-instrumented search only)')
 LEVEL_NOTE = ('trusted: Lean kernel; oracle contracts (monitored by the harness wrappers on every explored call); the '
               'correspondence harness (#include of src/opus_decoder.c with the DSP entry points renamed to recording wrappers) '
@@ -161,6 +173,43 @@ def _idx_witness(inp, impl):
                 continue
             if src < 0 or dst < 0 or src + n > ML or dst + n > ML:
                 return 'decode_mem shift %s leaves the %d-sample channel buffer' % (mv, ML)
+    if len(t) >= 2 and t[1] == 'celtcalls':
+        def memoff(ptr):
+            m = re.match(r'mem\d\+(-?\d+)$', ptr)
+            return int(m.group(1)) if m else None
+        for call in filter(None, impl.split(' ')[0].split(';')):
+            m = re.match(r'(\w+)\((.*)\)$', call)
+            if not m:
+                continue
+            fn, a = m.group(1), m.group(2).split(',')
+            spans = []          # (pointer, lowest element, one past the highest element) relative to the pointer
+            try:
+                if fn == 'copy':
+                    spans = [(a[0], 0, int(a[2])), (a[1], 0, int(a[2]))]
+                elif fn == 'iir':
+                    spans = [(a[0], 0, int(a[3])), (a[2], 0, int(a[3]))]
+                elif fn == 'mdct':
+                    spans = [(a[2], 0, int(a[4]) // 2 + int(a[3])), (a[0], 0, int(a[1]) * (int(a[3]) - 1) + 1)]
+                elif fn == 'comb':
+                    spans = [(a[1], -(max(int(a[2]), int(a[3]), 15) + 2), int(a[4]))]
+                elif fn == 'denorm':
+                    spans = [(a[1], 0, int(a[2]))]
+                elif fn == 'fir':
+                    spans = [(a[0], -int(a[4]), int(a[3]))]
+                elif fn == 'pdown':
+                    spans = [(a[0], 0, int(a[3]))] + ([(a[1], 0, int(a[3]))] if a[1] != '-' else [])
+            except (ValueError, IndexError):
+                continue
+            for ptr, lo, hi in spans:
+                off = memoff(ptr)
+                cap = ML
+                if off is None:
+                    m2 = re.match(r'exc\+(-?\d+)$', ptr)
+                    if not m2:
+                        continue
+                    off, cap = int(m2.group(1)), 1024 + 24
+                if off + lo < 0 or off + hi > cap:
+                    return 'recorded call %s touches elements %d..%d of a %d-element array' % (call, off + lo, off + hi - 1, cap)
     return None
 
 
